@@ -169,7 +169,18 @@ class Cache:
         elif isinstance(node, verbs.Join):
             assert right_cache is not None
 
-            res.cols = self.cols | right_cache.cols
+            # a constant column of a null-extended side is not a constant any more
+            def nullable(cols: dict[UUID, Col]) -> dict[UUID, Col]:
+                return {
+                    uid: Col(col.name, col._ast, uid, types.without_const(col._dtype), col._ftype)
+                    if types.is_const(col._dtype)
+                    else col
+                    for uid, col in cols.items()
+                }
+
+            res.cols = (nullable(self.cols) if node.how == "full" else self.cols) | (
+                nullable(right_cache.cols) if node.how in ("left", "full") else right_cache.cols
+            )
             res.name_to_uuid = self.name_to_uuid | right_cache.name_to_uuid
             res.uuid_to_name = {uid: name for name, uid in res.name_to_uuid.items()}
 
